@@ -517,9 +517,11 @@ func (x *Exec) analyseLoop(fr *Frame, nodes ...ast.Node) loopInfo {
 				li.modified[obj] = true
 			}
 		default:
-			// find root identifier; writes through pointers/maps/slices touch the heap
+			// find root identifier; writes through pointers/maps touch the heap and
+			// leave the root variable itself unchanged
 			root := e
 			viaPtr := false
+			var rootObj types.Object
 			for {
 				switch r := ast.Unparen(root).(type) {
 				case *ast.SelectorExpr:
@@ -544,11 +546,12 @@ func (x *Exec) analyseLoop(fr *Frame, nodes ...ast.Node) loopInfo {
 					root = r.X
 					continue
 				case *ast.Ident:
-					if obj := info.Uses[r]; obj != nil {
-						li.modified[obj] = true
-					}
+					rootObj = info.Uses[r]
 				}
 				break
+			}
+			if rootObj != nil && !viaPtr {
+				li.modified[rootObj] = true
 			}
 			if viaPtr {
 				li.heapWrite = true
@@ -561,6 +564,18 @@ func (x *Exec) analyseLoop(fr *Frame, nodes ...ast.Node) loopInfo {
 		}
 		ast.Inspect(n, func(n ast.Node) bool {
 			switch s := n.(type) {
+			case *ast.GoStmt:
+				// the started goroutine does not run in this thread of control;
+				// only the evaluation of its arguments happens here
+				for _, a := range s.Call.Args {
+					ast.Inspect(a, func(m ast.Node) bool {
+						if c, ok := m.(*ast.CallExpr); ok && x.callMayWriteHeap(fr, c) {
+							li.heapWrite = true
+						}
+						return true
+					})
+				}
+				return false
 			case *ast.AssignStmt:
 				for _, l := range s.Lhs {
 					mark(l)
